@@ -1,6 +1,8 @@
 package main
 
 import (
+	"runtime/debug"
+	"runtime/pprof"
 	"flag"
 	"fmt"
 	"os"
@@ -21,6 +23,7 @@ func main() {
 	reqs := flag.String("requires", "", "debug: print the preconditions computed for a function")
 	flag.Parse()
 	start := time.Now()
+	debug.SetGCPercent(800)
 	if *verif == "" {
 		exe, _ := os.Executable()
 		*verif = filepath.Dir(filepath.Dir(exe))
@@ -85,6 +88,11 @@ func main() {
 				ctx.rep.bad("INFRA", "stackcheck", "panic", "?", fmt.Sprint("analyser panic: ", r))
 			}
 		}()
+		if pf := os.Getenv("STACKCHECK_PROF"); pf != "" {
+			f, _ := os.Create(pf)
+			pprof.StartCPUProfile(f)
+			defer pprof.StopCPUProfile()
+		}
 		spec.Run(ctx)
 	}()
 	if *list || *only != "" {
